@@ -1106,7 +1106,7 @@ Unpause ==          \* Orchestrator.unpause(): one ResumeStage per PAUSED stage,
   /\ UNCHANGED <<wf, st, tk, dlq, claims, wk, ledger, gh>>
 
 SendRestart(s) ==   \* Orchestrator.restart()
-  /\ EnvOK /\ cnt.restarts < MaxRestarts /\ s \in DOMAIN st /\ st[s].status \in Complete
+  /\ EnvOK /\ cnt.restarts < MaxRestarts /\ s \in DOMAIN st      \* (at any time: the handler refuses a stage that is not complete)
   /\ Commit(<<RestartStageM(s)>>, FALSE)
   /\ cnt' = [cnt EXCEPT !.restarts = @ + 1]
   /\ lbl' = [name |-> "SendRestart", mid |-> <<"RestartStage", s, "", 0>>, c |-> TRUE]
